@@ -1263,6 +1263,10 @@ func (dsc *dataStoreCommand) lpop(keyName string, count int) (values [][]byte, e
 		return
 	}
 
+	if count > list.count {
+		// can't pop more than the list holds (also bounds the allocation below)
+		count = list.count
+	}
 	values = make([][]byte, 0, count)
 
 	for ; count > 0; count-- {
@@ -1368,6 +1372,10 @@ func (dsc *dataStoreCommand) rpop(keyName string, count int) (values [][]byte, e
 		return
 	}
 
+	if count > list.count {
+		// can't pop more than the list holds (also bounds the allocation below)
+		count = list.count
+	}
 	values = make([][]byte, 0, count)
 
 	for ; count > 0; count-- {
